@@ -2,10 +2,12 @@
    Only pinned statements; proofs live in P/ElectionProofs.v (abstract election
    protocol; crashes may fall between any two steps; a restart sees exactly the
    durable image; images handed out for persistence become durable in order).
-   Covered promise classes: vote grants, vote requests, leader traffic.  NOT yet
-   covered (partial): append acknowledgements and the log part of "never behind"
-   (they need the log layer of P). *)
-From RV Require Import Base.Prelude M.Quorum P.Election P.ElectionProofs.
+   Covered promise classes: vote grants, vote requests, leader traffic (election
+   layer, P/Election.v) and append acknowledgements / the log (log layer, P/Log.v:
+   an acknowledgement is recorded as released only while the node's durable log
+   covers it, and a crash falls back to exactly the durable log; the last two
+   theorems, proofs in P/LogSafety.v and P/LogProofs.v). *)
+From RV Require Import Base.Prelude M.Quorum P.Election P.ElectionProofs P.Log P.LogProofs P.LogSafety.
 Local Open Scope N_scope.
 
 (* a node grants at most one candidate its vote in any term, ever *)
@@ -33,3 +35,27 @@ Theorem C06_term_monotone :
     p_term (nodes s n) <= p_term (nodes s' n).
 Proof. exact term_monotone. Qed.
 Print Assumptions C06_term_monotone.
+
+(* Append acknowledgements: the index a node is recorded to have acknowledged in a
+   term is only ever raised while its DURABLE log covers that index with the entries
+   of that term's leader log - by the release of an acknowledgement it created, or
+   (ghost) for the leader itself when it counts its own durable log in a commit. *)
+Theorem C06_ack_released_only_when_durable :
+  forall inc out, inc <> [] -> no_single_quorum inc out ->
+  forall s l s' q t, lreachable inc out s -> lrule inc out l s = Some s' ->
+    (acked s q t < acked s' q t)%nat ->
+    (acked s' q t <= length (llog s t))%nat /\
+    (exists suf, l_dlog (ln s q) = firstn (acked s' q t) (llog s t) ++ suf) /\
+    (l = LRelAck q t (acked s' q t) \/
+     (l = LCommitL q (acked s' q t) /\ t = p_term (nodes (el s) q) /\ p_role (nodes (el s) q) = PL)).
+Proof. exact ack_record_rule. Qed.
+Print Assumptions C06_ack_released_only_when_durable.
+
+(* A crash loses nothing durable: the restarted node's log is exactly its durable log,
+   which the crash leaves untouched (so it still covers every acknowledgement released
+   before, until a newer leader's entries legitimately replace an uncommitted suffix). *)
+Theorem C06_crash_keeps_durable_log :
+  forall inc out s n s', lrule inc out (LEl (LCrash n)) s = Some s' ->
+    l_commit (ln s' n) = 0%nat /\ l_log (ln s' n) = l_dlog (ln s n) /\ l_dlog (ln s' n) = l_dlog (ln s n).
+Proof. exact crash_falls_back. Qed.
+Print Assumptions C06_crash_keeps_durable_log.
